@@ -27,9 +27,8 @@ META = {
     "assumptions": [
         "snapshot() reads public attributes only; equality of snapshots is "
         "the meaning of 'identical observable content'",
-        "a module's entry point is a code block of that module (an entry "
-        "point in a later module saves but cannot be loaded, in this API "
-        "and in the C++ loader alike; see DESIGN.md section 9)",
+        "a module's entry point is a code block of any module of the same "
+        "IR, earlier or later in module order",
         "known symbolic-expression attributes are generated as enum members "
         "(a raw int of a known constant legitimately loads as the member)",
     ],
